@@ -82,6 +82,10 @@ def run_C03(ctx):
         done = replay_histories(ctx, hist, "replay-calls")
         ctx.exhaustive = (done == n and ctx.events == 2 * n)
         ctx.notes.append("call space of %d calls enumerated by TLC and replayed completely: %s" % (n, ctx.exhaustive))
+    # the small API helpers against their functional specification (advisory: not a listed property; their
+    # outcome (no panic) is part of C03 and is enforced)
+    drive_and_validate(ctx, [{"driver": "OUT:UTIL", "n": sz(ctx, 1600, 40000)}])
+    drive_and_validate(ctx, [{"driver": "UTIL", "n": sz(ctx, 1600, 40000)}], advisory=True)
     # every other driver's workload also counts: their events carry the outcome
     k = sz(ctx, 400, 10000)
     drive_and_validate(ctx, [{"driver": "OUT:" + d, "n": k, "probes": 2} for d in
@@ -110,7 +114,7 @@ def run_C08(ctx):
 
 def run_C07(ctx):
     run_model(ctx, "MC_BigInt", workers=4)
-    drive_and_validate(ctx, [{"driver": "C07", "n": sz(ctx, 2400, 100000)}])
+    drive_and_validate(ctx, [{"driver": "C07", "n": sz(ctx, 2400, 50000)}])
 
 
 def run_C13(ctx):
@@ -214,6 +218,8 @@ PROPS = {
                     "goroutines; every schedule is a distinct non-trivial case",
             "level_note": "The data-race clause is observed by the Go race detector (a report is direct evidence from the real "
                           "code); the specification contributes the schedules and the result oracle. Trusted: TLC, Go -race."},
+    "UTIL": {"run": lambda ctx: drive_and_validate(ctx, [{"driver": "UTIL", "n": sz(ctx, 3200, 100000)}]), "internal": True,
+             "rule": "component check, not a listed property: small API helpers against UtilOK"},
     "SWEEP": {"run": run_SWEEP, "internal": True,
               "rule": "component check, not a listed property: scan-beam snapshots of engine executions against Sweep.tla"},
     "C02": {"run": run_C02,
